@@ -20,10 +20,13 @@ def guards_and_block(run, repo, rel, name, signed=True, loop_form=True):
     return f, k
 
 
-def decode_table(expr):
+def decode_table(expr, f=None):
     """Truth table of an outcome-decode expression over sign source A and observable phase B in {0,2}.
-    Returns dict or raises Undecidable.  A = any ps_stb[...] / pa read, B = any ps_obs[...] / ps_ob read."""
+    Returns dict or raises Undecidable.  A = any ps_stb[...] read or local accumulator, B = any ps_obs[...] / ps_ob read."""
     res = {}
+    params = set(f.params) if f is not None else set()
+    local_names = {n.id for n in ast.walk(expr) if isinstance(n, ast.Name) and n.id not in params
+                   and n.id not in ('torch', 'numpy', 'np', 'int')}
     for A in (0, 2):
         for B in (0, 2):
             def sub(n, env, rec, A=A, B=B):
@@ -41,21 +44,25 @@ def decode_table(expr):
                 if fn == 'int' and n.args:
                     return int(rec(n.args[0]))
                 raise Undecidable('call %s' % fn)
-            res[(A, B)] = ev(expr, {'pa': A, 'ps_ob': B}, sub=sub, call=call)
+            env = {n: A for n in local_names}
+            env['ps_ob'] = B
+            res[(A, B)] = ev(expr, env, sub=sub, call=call)
     return res
 
 
 def check_decodes(run, f, rule='R3.decode', sign_form=False):
     """out[k] = ((sign - ps_obs[k]) % 4) // 2   (bit form) or (-1) ** (...) (sign form)."""
     n = 0
+    from ..names import return_names
+    outs = {x for x in return_names(f) if x is not None and x not in f.params}
     for st, ctx in walk(f.node):
         if not (isinstance(st, ast.Assign) and isinstance(st.targets[0], ast.Subscript)
-                and isinstance(st.targets[0].value, ast.Name) and st.targets[0].value.id in ('out', 'xs')):
+                and isinstance(st.targets[0].value, ast.Name) and st.targets[0].value.id in outs):
             continue
         if isinstance(st.value, ast.Constant):
             continue
         try:
-            tab = decode_table(st.value)
+            tab = decode_table(st.value, f)
         except Undecidable as e:
             run.undecided(rule, f, st, str(e))
             continue
@@ -84,16 +91,19 @@ def coin_and_probability(run, f, k, rule='R11.coin', coin_names=('randint',)):
         run.undecided(rule, f, f.name, 'replacement block not found')
         return
     block = k.block
+    from ..names import return_names
+    rn = return_names(f)
+    lp = rn[-1] if rn else 'log2prob'
     # find the If whose body is the block
     owner = None
     for st, ctx in walk(f.node):
         if isinstance(st, ast.If) and st.body is block:
             owner = st
     decs = [s for s in block if isinstance(s, ast.AugAssign) and isinstance(s.target, ast.Name)
-            and s.target.id == 'log2prob']
+            and s.target.id == lp]
     ok = len(decs) == 1 and isinstance(decs[0].op, ast.Sub) and isinstance(decs[0].value, ast.Constant) \
         and decs[0].value.value == 1
-    run.check(ok, rule, f, decs[0] if decs else 'log2prob', 'an undetermined outcome has probability 1/2: log2prob must be '
+    run.check(ok, rule, f, decs[0] if decs else lp, 'an undetermined outcome has probability 1/2: log2prob must be '
               'decremented by exactly 1, once, in the block that flips the coin')
     coins = [s for s in block if isinstance(s, ast.Assign) and isinstance(s.targets[0], ast.Subscript)
              and isinstance(s.targets[0].value, ast.Name) and s.targets[0].value.id == 'ps_stb']
@@ -115,6 +125,6 @@ def coin_and_probability(run, f, k, rule='R11.coin', coin_names=('randint',)):
                     root = tg
                     while isinstance(root, ast.Subscript):
                         root = root.value
-                    if isinstance(root, ast.Name) and root.id in (k.tab, 'ps_stb', 'log2prob', 'r', 'gs_stb'):
+                    if isinstance(root, ast.Name) and root.id in (k.tab, 'ps_stb', lp, 'r', 'gs_stb'):
                         bad.append(norm(n))
         run.check(not bad, rule, f, owner.test, 'when the observable is already determined nothing may be written: %s' % bad)
